@@ -759,9 +759,16 @@ func init() {
 		// whence == io.SeekEnd: the result is size+offset with 0 <= size <= MaxInt64
 		off, wh := e.scalar(args[0]), e.scalar(args[1])
 		e.assume(fmt.Sprintf("(=> (and (= %s 0) (= %s 2)) (<= (- %s %s) 9223372036854775807))", er, wh, pos, off))
+		// a seekable source's position is its absolute offset: SeekStart sets it, SeekCurrent moves it; a failed seek leaves
+		// it unspecified. Other readers layered on the same source are not tracked: their positions become unknown.
+		posArr := e.ghost(h, "rd_pos")
+		before := e.define(nm+".pos0", "Int", fmt.Sprintf("(select %s %s)", posArr, r))
 		for _, g := range []string{"G.rd_pos", "G.rd_left"} {
 			e.havocHeapComp(h, g)
 		}
+		e.assume(fmt.Sprintf("(=> (and (= %s 0) (= %s 0)) (= %s %s))", er, wh, pos, off))
+		e.assume(fmt.Sprintf("(=> (and (= %s 0) (= %s 1)) (= %s (+ %s %s)))", er, wh, pos, before, off))
+		e.setGhost(h, "rd_pos", e.ghost(h, "rd_pos"), r, fmt.Sprintf("(ite (= %s 0) %s (select %s %s))", er, pos, e.ghost(h, "rd_pos"), r))
 		f.noteFault(h, er)
 		f.setResult(in, rv)
 		return true
